@@ -96,7 +96,9 @@ Tsros == <<[precision |-> "auto"], [precision |-> 3], [precision |-> "minute"], 
 DCals == <<"auto", "always", "never", "critical">>
 Ropts == <<[smallest |-> "hour"], [smallest |-> "minute", inc |-> 15, mode |-> "ceil"], [largest |-> "day", smallest |-> "second", mode |-> "floor"], [mode |-> "trunc"]>>
 DurRopts == <<[smallest |-> "hour"], [largest |-> "day", smallest |-> "minute", inc |-> 15, mode |-> "halfExpand"], [largest |-> "year", smallest |-> "month", mode |-> "ceil"], [largest |-> "hour"], [mode |-> "trunc"]>>
-Rels == <<NoArgs, [rel |-> [date |-> D1]], [rel |-> [date |-> D7]], [rel |-> [zdt |-> ZPrimary[2]]], [rel |-> [zdt |-> ZN(D1, T1, Sub1, "America/New_York")]]>>
+Rels == <<NoArgs, [rel |-> [date |-> D1]], [rel |-> [date |-> D7]], [rel |-> [zdt |-> ZPrimary[2]]], [rel |-> [zdt |-> ZN(D1, T1, Sub1, "America/New_York")]],
+         \* midnight before a spring-forward transition (2020-03-08T00:00-08:00): a day of 23 hours, where P1D and PT24H part ways
+         [rel |-> [zdt |-> ZN(Date(2020, 3, 8), TimeRec(8, 0, 0, 0, 0, 0), 0, "America/Los_Angeles")]]>>
 PDatesFull == <<[year |-> 2021, month |-> 3, day |-> 9], [year |-> 2022, month_code |-> "M04", day |-> 10], [year |-> 2021, month |-> 3, month_code |-> "M03", day |-> 9],
                 [year |-> 2021, month |-> 13, day |-> 40], [month |-> 3, day |-> 9], [cal |-> "iso8601"],
                 [era |-> "ce", era_year |-> 2021, month |-> 3, day |-> 9, cal |-> "gregory"], [year |-> 5781, month_code |-> "M05L", day |-> 1, cal |-> "hebrew"],
